@@ -484,6 +484,12 @@ func (e *byzEngine) sweep(base Claim, L *Layout, pool []H, maxPos uint64) []Clai
 			hv := hv
 			mk(fmt.Sprintf("hash[%d]=pool#%d", i, k), func(c *Claim) { c.Hashes[i] = hv })
 		}
+		// near misses of the true hash: an attacker picks the claimed bytes freely,
+		// so a value that agrees with the true hash in a long prefix or suffix costs nothing
+		for _, at := range []int{31, 12, 11, 0} {
+			at := at
+			mk(fmt.Sprintf("hash[%d] byte %d flipped", i, at), func(c *Claim) { c.Hashes[i][at] ^= 0x5a })
+		}
 		// duplicate the target, with its own hash and with every pool value
 		mk(fmt.Sprintf("dup target[%d]", i), func(c *Claim) {
 			c.Targets = append(c.Targets, c.Targets[i])
@@ -523,6 +529,10 @@ func (e *byzEngine) sweep(base Claim, L *Layout, pool []H, maxPos uint64) []Clai
 	}
 	for j := range base.Proof {
 		j := j
+		for _, at := range []int{31, 12, 0} {
+			at := at
+			mk(fmt.Sprintf("proof[%d] byte %d flipped", j, at), func(c *Claim) { c.Proof[j][at] ^= 0x5a })
+		}
 		for k, hv := range pool {
 			if hv == base.Proof[j] {
 				continue
@@ -554,6 +564,12 @@ func (e *byzEngine) mutate(r *Rng, c Claim, L *Layout, pool []H, maxPos uint64) 
 	case 1:
 		if len(c.Hashes) > 0 {
 			i := r.Intn(len(c.Hashes))
+			if r.Pct(30) {
+				at := []int{31, 12, 11, 0, 20}[r.Intn(5)]
+				c.Hashes[i][at] ^= byte(1 + r.Intn(255))
+				c.Mut += fmt.Sprintf("; hash[%d] byte %d changed", i, at)
+				return c
+			}
 			c.Hashes[i] = pool[r.Intn(len(pool))]
 			c.Mut += fmt.Sprintf("; hash[%d]=pool", i)
 		}
